@@ -78,8 +78,8 @@ MFlips == /\ Consume("flips") /\ Ev.nacc = 0 /\ Ev.baseok
           /\ UNCHANGED <<nforged, ncorrect>>
 
 MAppend == /\ Consume("append")
-           /\ (Forged(Ev.tm) => Ev.emr = 0 /\ Ev.gme = 0 /\ Ev.pre = Ev.post)
-           /\ (CorrectlySigned(Ev.tm) => Ev.emr = 1 /\ Ev.gme = 1)
+           /\ (Forged(Ev.tm) => Ev.emr = 0 /\ Ev.gme = 0 /\ ~Ev.listed /\ Ev.pre = Ev.post)
+           /\ (CorrectlySigned(Ev.tm) => Ev.emr = 1 /\ Ev.gme = 1 /\ Ev.listed)
            /\ Ev.emr <= 1 /\ Ev.gme <= 1
            /\ ((Ev.emr + Ev.gme > 0) => Ev.tyok /\ Ev.sameok)
            /\ Count(Ev.tm)
